@@ -109,6 +109,43 @@ def check(tier: str) -> Report:
                 viol("C18:value-outside-envelope", f"C18/{name}/envelope",
                      {"base_s": base, "max_s": mx, "attempt": attempt, "prev": prev, "draw": u,
                       "returned_s": repr(r), "envelope": env})
+        # ---- adaptive(): random valid parameterisations and histories -----------------
+        for _ in range(600 if tier == "quick" else 30000):
+            ts = rng.choice([1.0, 0.9, 0.5, 1e-9, 1e-17, 5e-324, rng.random() or 0.5])
+            mn = rng.choice([1.0, 1.0, 2.0, 1.5])
+            mx_m = mn + rng.choice([0.0, 0.0, 1.0, 4.0])
+            win = rng.choice([0.5, 1.0, 5.0])
+            now = [0.0]
+            fb = rng.choice([0.0, 0.25, 3.0])
+            evaluations += 1
+            try:
+                ad = S.adaptive(lambda ctx, _f=fb: _f, window_s=win, target_success=ts, min_multiplier=mn,
+                                max_multiplier=mx_m, clock=lambda: now[0])
+                ctx = S.BackoffContext(attempt=1, classification=Classification(ErrorClass.TRANSIENT),
+                                       prev_sleep_s=None, remaining_s=None, cause="exception")
+                vals = []
+                for _step in range(rng.randint(0, 8)):
+                    x = rng.random()
+                    if x < 0.35:
+                        ad.record_failure(ErrorClass.TRANSIENT)
+                    elif x < 0.6:
+                        ad.record_success()
+                    elif x < 0.8:
+                        now[0] += rng.choice([0.0, win / 2, win, win * 1.5])
+                    else:
+                        vals.append(ad(ctx))
+                vals.append(ad(ctx))
+            except BaseException as err:  # noqa: BLE001
+                viol("C18:strategy-raises", f"C18/adaptive/raises/{type(err).__name__}",
+                     {"target_success": ts, "min_multiplier": mn, "max_multiplier": mx_m, "window_s": win,
+                      "raised": repr(err)})
+                continue
+            for v in vals:
+                if not (math.isfinite(v) and fb * mn * (1 - 1e-12) <= v <= fb * mx_m * (1 + 1e-12)):
+                    viol("C18:adaptive-multiplier-outside-range", "C18/adaptive/multiplier-range",
+                         {"target_success": ts, "min_multiplier": mn, "max_multiplier": mx_m,
+                          "fallback": fb, "returned": v})
+                    break
         # ---- retry_after_or sanitisation -----------------------------------------
         kinds = {"zero": 0.0, "val": 2.0, "big": 1e12, "nan": math.nan, "pinf": math.inf,
                  "ninf": -math.inf, "neg": -3.0}
